@@ -419,6 +419,25 @@ func returnErrClasses(v ssa.Value, depth int) []errClass {
 			}
 			return []errClass{{edge: -1}}
 		}
+		// a small helper of the library that only builds an error: classify what it returns
+		if sc := x.Call.StaticCallee(); sc != nil && sc.Pkg != nil && isLibPkgPath(sc.Pkg.Pkg.Path()) && sc.Blocks != nil && len(sc.Blocks) <= 2 {
+			if res := sc.Signature.Results(); res.Len() == 1 && isErrorType(res.At(0).Type()) {
+				var out []errClass
+				for _, b := range sc.Blocks {
+					for _, in := range b.Instrs {
+						if ret, ok := in.(*ssa.Return); ok && len(ret.Results) == 1 {
+							for _, cl := range returnErrClasses(ret.Results[0], depth+1) {
+								cl.phi, cl.edge = nil, -1
+								out = append(out, cl)
+							}
+						}
+					}
+				}
+				if len(out) > 0 {
+					return out
+				}
+			}
+		}
 		return []errClass{{fromCall: true, edge: -1}}
 	case *ssa.Extract:
 		return []errClass{{fromCall: true, edge: -1}}
